@@ -246,3 +246,49 @@ Proof.
   rewrite G in H. cbv beta iota in H. cbn [rbind] in H. inversion H; subst.
   cbn [to_result]. rewrite zseq_shift. reflexivity.
 Qed.
+
+(* the same in multi-language mode: one part, labelled with the language
+   given, holding the input with the identity map *)
+Lemma sections_no_lang : forall toks stack back brk cur secs,
+  Forall (fun t => is_lang t = false) toks ->
+  sections toks stack back brk cur secs = flush stack back brk (rev toks ++ cur) secs.
+Proof.
+  induction toks as [|t r IH]; intros stack back brk cur secs H; [reflexivity|].
+  inversion H as [|? ? Ht Hr]; subst. cbn [sections]. unfold is_lang in Ht.
+  destruct (tk t); try discriminate; rewrite IH by exact Hr; simpl;
+    rewrite <- app_assoc; reflexivity.
+Qed.
+
+Theorem plain_fixed_point_multi T is_word files lang simple mods latex thresh fuel out :
+  plain_tables_ok T = true ->
+  plain_doc T latex -> latex <> [] ->
+  run_tex2txt T is_word files lang true simple mods [] latex [] None false
+              thresh fuel = Ok out ->
+  to_result out = TMulti [(lang, [(latex, zseq 1 (length latex))])].
+Proof.
+  intros Htab Hp Hne H. unfold run_tex2txt in H.
+  destruct (init_parser _ _ _ _ _ _) as [st| | |]; try discriminate. cbn [rbind] in H.
+  destruct (parse _ _ _ _ _ _ _) as [[st' toks]| | |] eqn:Epar; try discriminate.
+  cbn [rbind negb] in H. cbv zeta in H.
+  cbv beta iota zeta delta [parse] in Epar. cbn [rbind] in Epar. cbv beta iota zeta in Epar.
+  match type of Epar with context [parser_work ?T ?r ?s ?l] =>
+    destruct (parser_work T r s l) as [x| | |] eqn:Ew end; try discriminate.
+  cbn [rbind] in Epar.
+  destruct (parser_work_plain T _ Htab _ _ _ _ Hp Ew) as (Es & Ex & _ & _).
+  destruct x as [st1 body]. cbn [fst snd] in *. rewrite Ex in Epar.
+  cbn [rbind extracted upd_unknowns upd_extracted] in Epar.
+  inversion Epar; subst. clear Epar.
+  rewrite !app_nil_r in H. cbn [app] in H.
+  destruct (scan_plain (t_scan T) latex (okc T) Hp) as (G & Ftok & _).
+  assert (Hnl : Forall (fun t => is_lang t = false) (fst (scan (t_scan T) latex))).
+  { eapply Forall_impl; [|exact Ftok]. intros a [_ Ha]. unfold is_lang.
+    destruct (tk a); try contradiction; reflexivity. }
+  unfold get_txt_pos_ml in H. rewrite (sections_no_lang _ _ _ _ _ _ Hnl) in H.
+  unfold flush in H. rewrite app_nil_r, rev_involutive, G in H.
+  destruct latex as [|c latex']; [contradiction|].
+  cbn [rev app join_sections length rbind group_lang existsb s_lang s_txt s_pos] in H.
+  assert (Hl : str_eqb lang lang = true) by (apply str_eqb_eq; reflexivity).
+  cbn [rbind] in H. rewrite Hl in H. cbn [rbind] in H.
+  inversion H; subst. cbn [to_result map fst snd].
+  rewrite zseq_shift. reflexivity.
+Qed.
